@@ -20,6 +20,7 @@ structure C09St where
   sentIn : Nat := 0               -- request-body input bytes accepted in SendBody
   bodyEnded : Bool := false       -- the whole declared body was accepted and its end was signalled without an error
   headDone : Bool := false        -- a head write left ≥ 200 bytes of its buffer unused: nothing of the head is left
+  bodyTouched : Bool := true      -- in SendBody: a body write / direct-write report was made since the state was entered
   known : Option (String × String) := none
   fail : Option String := none
 
@@ -58,7 +59,9 @@ def oracleC09 (c : TCase) : Verdict :=
          if 1000 ≤ cap.toNat! then { s with fail := some s!"a head write into {cap} bytes reports OutputOverflow: the flow is stuck in SendRequest" } else s1
        | _, _ => s1)
     | "hdr" => (match t.op, t.res with | [_, k, v], ["ok"] => { s1 with hdrs := s.hdrs ++ [{ name := k.toLower, value := unhex v }] } | _, _ => s1)
+    | "direct" => if s.prevState == "sendBody" then { s1 with bodyTouched := true } else s1
     | "bwrite" =>
+      let s1 := if s.prevState == "sendBody" then { s1 with bodyTouched := true } else s1
       if s.prevState != "sendBody" || !s.firstFlow then s1 else
       (match t.op, t.res with
        | [_, i, cap], ["bytes", n, out] =>
@@ -74,6 +77,9 @@ def oracleC09 (c : TCase) : Verdict :=
       else
       if s.prevState == "sendBody" && s.bodyEnded && t.res == ["bool", "false"] then
         { s with fail := some "the whole request body was written and its end signalled, but the flow is not ready to advance" }
+      else
+      if s.prevState == "sendBody" && !s.bodyTouched && t.res == ["bool", "true"] then
+        { s with fail := some "the body state reports the body finished before the caller wrote or ended anything in it: the flow that advanced is not usable for sending its body" }
       else
       -- a response head other than a 100 was handed to the caller: the flow stands before its successor state
       if s.prevState == "recvResponse" && t.res == ["bool", "false"] &&
@@ -120,9 +126,12 @@ def oracleC09 (c : TCase) : Verdict :=
               | none => none)
            else if from_ == "redirect" then some "cleanup"
            else none
+         if from_ == "sendBody" && !s.bodyTouched then
+           { s with fail := some s!"the body state was left for {nxt} although the caller never wrote or ended a body in it" } else
          (match expected with
-          | some e => if e == nxt then s1 else { s with fail := some s!"from {from_} the graph prescribes {e}, the flow went to {nxt}" }
-          | none => s1)
+          | some e => if e == nxt then (if nxt == "sendBody" then { s1 with bodyTouched := false } else s1)
+                      else { s with fail := some s!"from {from_} the graph prescribes {e}, the flow went to {nxt}" }
+          | none => if nxt == "sendBody" then { s1 with bodyTouched := false } else s1)
        | "none" :: rest =>
          if canFlag rest == some true then { s with fail := some s!"readiness query true but advancing returned nothing: {t.raw.take 100}" }
          else if from_ == "sendRequest" && s.headDone then
